@@ -77,9 +77,11 @@ def decode_value(r):
 class TraceTaskQueue(queue.Queue):
     """task queue that logs task_done calls of worker threads (with the index of the task they took)."""
 
-    def __init__(self, log, loglock, race=False):
+    def __init__(self, log, loglock, race=False, slow_done=False):
         queue.Queue.__init__(self)
         self.log, self.loglock = log, loglock
+        # slow_done: a worker is pre-empted between result_queue.put() and task_queue.task_done()
+        self.slow_done = slow_done
         self.local = threading.local()
         # race mode (forced shutdown): a worker that asks for its SECOND task is held until the consumer has
         # seen `not empty()` with exactly one task left; it then takes that task before the consumer's get
@@ -117,6 +119,8 @@ class TraceTaskQueue(queue.Queue):
         self.local.current = None
         from mapproxy.util.async_ import ThreadWorker
         if cur is not None and isinstance(threading.current_thread(), ThreadWorker):
+            if self.slow_done:
+                time.sleep(0.12)
             with self.loglock:
                 self.log.append((False, cur))
                 queue.Queue.task_done(self)
@@ -162,7 +166,7 @@ def gen_arrival(rng, n, pool_size, mode):
     return arr
 
 
-def run_impl(api, pool_size, use_ro, items, arrival, slow_put=False, race=False):
+def run_impl(api, pool_size, use_ro, items, arrival, slow_put=False, race=False, slow_done=False):
     """items: list of ('ok', v) / ('exc', e).  Returns (yielded list, raised ident or None, hang flag, worker trace).
     slow_put: every result_queue.put is held back until the consumer finished or a grace period passed."""
     from mapproxy.util.async_ import ThreadPool, AsyncResult
@@ -181,7 +185,7 @@ def run_impl(api, pool_size, use_ro, items, arrival, slow_put=False, race=False)
     trace, loglock = [], threading.Lock()
     gate = threading.Event() if (slow_put and not sequential) else None
     pool.result_queue = SignalQueue(trace, loglock, gate)
-    pool.task_queue = TraceTaskQueue(trace, loglock, race=race)
+    pool.task_queue = TraceTaskQueue(trace, loglock, race=race, slow_done=slow_done)
     out, raised, state = [], [None], {'done': False}
 
     def consume():
@@ -349,14 +353,26 @@ def run(ctx):
         n = ps + rng.choice([2, 3, 4])
         items = [('exc', 100)] + [('ok', 10 + i) for i in range(1, n)]
         cases.append(((rng.choice(['imap', 'starmap', 'map']), ps, False, items, list(range(n))), 'race'))
+    # slow task_done: every worker is held between result_queue.put() and task_queue.task_done(): the consumer has
+    # all results while tasks are still "unfinished" (the call must still return)
+    for k in range(ctx.n(8, 40)):
+        n = rng.choice([2, 3, 4])
+        ps = rng.choice([2, 3, 4])
+        items = [('ok', 10 + i) for i in range(n)]
+        if k % 3 == 2:
+            items[rng.randrange(n)] = ('exc', 400 + rng.randrange(9))
+        cases.append(((rng.choice(['imap', 'starmap', 'map']), ps, k % 2 == 0, items, list(range(n))), 'slowdone'))
     terms, descr = [], []
     for case, slow in cases:
         api, ps, use_ro, items, arrival = case
         race = slow == 'race'
+        slow_done = slow == 'slowdone'
         slow = slow is True
         if race:
             ctx.count('forced_shutdown_race')
-        out, raised, hang, trace = run_impl(api, ps, use_ro, items, arrival, slow_put=slow, race=race)
+        if slow_done:
+            ctx.count('slow_task_done')
+        out, raised, hang, trace = run_impl(api, ps, use_ro, items, arrival, slow_put=slow, race=race, slow_done=slow_done)
         n = len(items)
         pool_path = not (ps < 2 or n == 1)
         if pool_path and not hang and (raised is None or slow):
